@@ -7,6 +7,7 @@ from ..cfg import natural_loops, reachable_from, reaches_without
 from ..guards import Facts, implied_atoms
 from ..ir import INT
 from ..build import AnalysisBroken
+from . import shared
 
 EXPLANATION = (
     "C01 as stated (decoded bytes equal the input for all data, lengths, erasure sets and permutations) quantifies over runtime "
@@ -477,7 +478,19 @@ def run(ctx):
         else:
             rg_.fail(inst, func=pf.name, sig=f'{c.callee[1:]} == 0 refused', loc=c.loc,
                      msg=f'a header whose {c.callee[1:]} is 0 (fragment of an empty object) is refused: every path from this value ends in an error return')
-    rg_.require_min(2)
+    # ... and for nothing else: a size is compared with zero only (payload sizes exceed the object size whenever encode padded)
+    def _size_policy(lf, ops_):
+        szs = [e for e in ops_ if '@get_orig_data_size(' in e or '@get_fragment_payload_size(' in e]
+        if not szs:
+            return None
+        other = [e for e in ops_ if e not in szs[:1]]
+        if len(szs) == 2 or not other or not INT.match(other[0]) or int(other[0]) not in (0, -1):
+            return f'a comparison of {szs[0]} with {other[0] if other else szs[-1]}'
+        return None
+    shared.rule_refusal_inventory(ctx, P, rg_, ['prepare_fragments_for_decode'], policy=_size_policy,
+                                  what='sizes read from a header are refused only when negative; the payload of a fragment is larger than the object whenever the '
+                                       'object is shorter than one padded stripe (1-byte objects, k = 1)')
+    rg_.require_min(4)
 
     rk = ctx.rule('R01d', 'coding kernels process every byte of the block (XOR kernel, RS region_xor / region_multiply)',
                   'payload sizes are multiples of 2 or 4 bytes only: a kernel tail for another width leaves the last bytes of parity / rebuilt data stale')
